@@ -31,6 +31,17 @@ def drain() -> list:
     return out
 
 
+def _same_kind(given, lines):
+    """The probe must read the lines without changing what the callee is handed: a re-iterable object is passed on as it is
+    (reading it consumed nothing), a one-shot iterator (which reading has exhausted) is replaced by a fresh ONE-SHOT iterator over
+    the same lines — never by a list, which would let a callee that wrongly walks its argument twice get away with it."""
+    try:
+        one_shot = iter(given) is given
+    except TypeError:
+        one_shot = False
+    return iter(lines) if one_shot else given
+
+
 def _wrap_classmethod(cls, name, label):
     try:
         orig = getattr(cls, name).__func__
@@ -47,8 +58,9 @@ def _wrap_classmethod(cls, name, label):
     def wrapper(c, *a, **k):
         try:
             ba = inspect.signature(orig).bind(c, *a, **k)
-            lines = list(ba.arguments[lname])
-            ba.arguments[lname] = lines
+            given = ba.arguments[lname]
+            lines = list(given)
+            ba.arguments[lname] = _same_kind(given, lines)
             rec = {"probe": "section", "callee": label, "lines": lines,
                    "instrument": getattr(ba.arguments.get("instrument"), "name", None),
                    "difficulty": getattr(ba.arguments.get("difficulty"), "name", None)}
@@ -105,8 +117,9 @@ def install_dispatch_probe():
         try:
             ba = sig.bind(*a, **k)
             types = tuple(ba.arguments["types"])
-            lines = list(ba.arguments["lines"])
-            ba.arguments["types"], ba.arguments["lines"] = types, lines
+            given = ba.arguments["lines"]
+            lines = list(given)
+            ba.arguments["types"], ba.arguments["lines"] = types, _same_kind(given, lines)
             a, k = ba.args, ba.kwargs
         except Exception:
             status["dispatch"] = "bind failed"
